@@ -25,7 +25,9 @@ def names_stream(ctx, full_len, n_random, max_rand_len=9):
             s = "".join(tup)
             seen.add(s)
             yield s
-    for k in KEYWORDS + ["foo-bar", "a.b", "${x}", "$${x}", "a\\${b}", "x\n", "if\n", "ключ", "a b"]:
+    extra = ["\x01", "a\x0cb", "esc\x1b[0m", "\x7f", "a\x0bb", "\x85", "a\u2028b", "\ufeffa", "tab\there", "cr\rx", "a\x1fb",
+             "a\\x0cb", "\\u001b"]
+    for k in KEYWORDS + ["foo-bar", "a.b", "${x}", "$${x}", "a\\${b}", "x\n", "if\n", "ключ", "a b"] + extra:
         if k not in seen:
             seen.add(k)
             yield k
@@ -245,6 +247,40 @@ def observe(ctx: fw.Ctx, names):
                              {"doc": doc, "path": path, "op": op, "output": out},
                              f"{op} {path!r} on {doc!r}: the quoted name {s!r} is one attribute, distinct from the nested "
                              f"path {s}; got {out!r}" + ("" if want is KeyError else f", expected tree {want!r}"))
+
+    # multi-segment combinations: a name repeated along the path, on documents with and without dotted roots —
+    # `set` writes the path, a second `set` and `rm` with the same path find that same binding
+    for doc in ("{ a.x = 0; }", "{ }", "{ a = { x = 0; }; }", "{ s.k = 1; }"):
+        for path, names_p in (("a.b.b", ["a", "b", "b"]), ("a.a.a", ["a", "a", "a"]), ("a.b.c.b", ["a", "b", "c", "b"]),
+                              ('s."x.y"."x.y"', ["s", "x.y", "x.y"]), ("k.k", ["k", "k"]), ('"k"."k".j', ["k", "k", "j"])):
+            ctx.case({"doc": doc, "path": path, "repeated": True}, True)
+
+            def get(tree, ns):
+                for n in ns:
+                    if not isinstance(tree, dict) or n not in tree:
+                        return None
+                    tree = tree[n]
+                return tree
+
+            try:
+                o1 = M.set_value(parse(doc), path, "1")
+                t1 = cstread.plain(cstread.read_doc_tree(o1))
+                o2 = M.set_value(parse(o1), path, "2")
+                t2 = cstread.plain(cstread.read_doc_tree(o2))
+                o3 = M.remove_value(parse(o1), path)
+                t3 = cstread.plain(cstread.read_doc_tree(o3))
+            except cstread.Duplicate as exc:
+                ctx.fail({"clause": "repeated-segment", "outcome": "duplicate"}, {"doc": doc, "path": path},
+                         f"set/set/rm {path!r} on {doc!r}: duplicate definition {exc}")
+                continue
+            except Exception as exc:  # noqa: BLE001
+                ctx.fail({"clause": "repeated-segment", "outcome": exc_class(exc)}, {"doc": doc, "path": path},
+                         f"set, then set / rm with the same path {path!r} on {doc!r} raised {type(exc).__name__}: {exc}")
+                continue
+            if get(t1, names_p) != "1" or get(t2, names_p) != "2" or get(t3, names_p) is not None:
+                ctx.fail({"clause": "repeated-segment", "outcome": "wrong-binding"}, {"doc": doc, "path": path, "outputs": [o1, o2, o3]},
+                         f"{path!r} on {doc!r}: after set {get(t1, names_p)!r}, after second set {get(t2, names_p)!r}, "
+                         f"after rm {get(t3, names_p)!r} (texts {o1!r}, {o2!r}, {o3!r})")
 
     # the command line hands the path to the library unchanged: a sample of names (non-ASCII in several
     # normalisation forms, spaces, dots, quotes) through `python -m nix_manipulator set|rm`
